@@ -621,6 +621,7 @@ class HDF5FileSources(Contract):
             ob(f'member.{m}', all(t in names for t in tokens), f'{m} is initialised as {meaning} (tokens {tokens}; found {sorted(n for n in names if n)[:8]})')
         # (2) dims of every dataset, from the first braced list of its _makeDatasetInfo call
         dims = {}
+        maxd = {}
         for m, ini in inits.items():
             calls = [x for x in _walk(ini) if x.get('kind') in ('CallExpr', 'CXXMemberCallExpr') and
                      any((y.get('referencedDecl') or {}).get('name') == '_makeDatasetInfo' or y.get('name') == '_makeDatasetInfo' for y in _walk(x['inner'][0]))]
@@ -635,6 +636,33 @@ class HDF5FileSources(Contract):
                 lit = [y.get('value') for y in _walk(c) if y.get('kind') == 'IntegerLiteral']
                 toks.append(mem[0] if mem else (int(lit[0]) if lit else '?'))
             dims[m] = toks
+            # the third braced list is the maximal extent: a dataset that grows by records has an unlimited first extent and
+            # is created EMPTY (records == appends, C10); a fixed dataset is created at its final size
+            if len(lists) >= 3:
+                def _const(c):
+                    k = c.get('kind')
+                    if k == 'IntegerLiteral':
+                        return int(c['value'])
+                    if k == 'BinaryOperator' and c.get('opcode') in ('+', '*', '-'):
+                        a_, b_ = _const(c['inner'][0]), _const(c['inner'][1])
+                        if a_ is None or b_ is None:
+                            return None
+                        return (a_ + b_ if c['opcode'] == '+' else a_ * b_ if c['opcode'] == '*' else a_ - b_) % 2 ** 64
+                    if k == 'UnaryOperator' and c.get('opcode') == '-':
+                        a_ = _const(c['inner'][0])
+                        return None if a_ is None else (-a_) % 2 ** 64
+                    if len(c.get('inner', [])) == 1:      # casts, parentheses, constant wrappers
+                        return _const(c['inner'][0])
+                    return None
+
+                def _tok(c):
+                    mem = [y.get('name') for y in _walk(c) if y.get('kind') == 'MemberExpr']
+                    if mem:
+                        return mem[0]
+                    v_ = _const(c)
+                    return v_ if v_ is not None else '?'
+                mx = [_tok(c) for c in lists[2]['inner']]
+                maxd[m] = mx
         if len(dims) < 15:
             raise ExtractionError(f'HDF5File constructor: only {len(dims)} datasets recognised')
 
@@ -646,6 +674,7 @@ class HDF5FileSources(Contract):
             raise ExtractionError(f'HDF5File: dataset extent {tok} has no stated meaning')
         # (3) every _appendData(dataset, source): one record = prod(dims[1:]) contiguous elements of the source
         napp = 0
+        appended = set()
         for fname, fl in tu.funcs.items():
             short = fname.split('::')[-1]
             if not fname.startswith('vfps::HDF5File::') or not short.startswith('append'):
@@ -666,6 +695,7 @@ class HDF5FileSources(Contract):
                     dsn = [x.get('name') for x in _walk(args[0]) if x.get('kind') == 'MemberExpr']
                     if not dsn or dsn[0] not in dims:
                         continue
+                    appended.add(dsn[0])
                     src = args[1]
                     for x in _walk(src):
                         if x.get('kind') == 'DeclRefExpr' and (x.get('referencedDecl') or {}).get('id') in decls:
@@ -699,6 +729,14 @@ class HDF5FileSources(Contract):
                     ob(f'{short}.{dsn[0]}.rows', And(*conds), f'each row of the record of {dsn[0]} ({rec}) is the corresponding row of the source ({shape}) and the read stays inside the buffer')
         if napp < 10:
             raise ExtractionError(f'HDF5File: only {napp} _appendData calls with a known source recognised')
+        # (3b) a dataset that _appendData grows is created with no record and may grow without bound; its record extents are final
+        for m in sorted(appended):
+            if m not in dims or m not in maxd:
+                continue
+            d_, x_ = dims[m], maxd[m]
+            unlimited = x_[0] == 2 ** 64 - 1        # H5S_UNLIMITED / H5F_UNLIMITED = HSIZE_UNDEF = ULLONG_MAX
+            ob(f'{m}.starts_empty', d_[0] == 0, f'time-indexed dataset {m} is created with {d_[0]} records (every record must come from an append call: records == entries of its time axis)', tags=frozenset({'C10'}))
+            ob(f'{m}.may_grow', bool(unlimited) and list(d_[1:]) == list(x_[1:]), f'time-indexed dataset {m}: maximal extents {x_} against extents {d_} (first unlimited, the others final)', tags=frozenset({'C10', 'C17'}))
         # (4) "the stored CSR intensity is the sum of the stored spectrum": the intensity accumulates every bin k < nmax of the
         # spectrum (updateCSR#post.power_is_sum); bins above nmax/2 carry nothing (impedance identically zero there, C16 upper_zero),
         # so every bin that can carry power, k <= nmax/2, has to be among the stored ones, k < stored width of /CSR/Spectrum/data
